@@ -52,18 +52,18 @@ def snap_resp(p):
     return d
 
 
-def drive_requestant(frags):
-    """Returns (results, leftover, raised). results = list of snapshots of ended messages."""
+def drive_requestant(frags, idle=(0,)):
+    """Returns (results, leftover, raised). results = list of snapshots of ended messages.
+    idle[i % len(idle)] further service passes without new bytes follow the i-th read."""
     msg = bytearray()
     rem = StubRemoter()
     req = serving.Requestant(msg=msg, remoter=rem)
     results = []
     raised = None
     stopped = False
-    for frag in frags:
-        msg.extend(frag)
-        if stopped:
-            continue
+
+    def pump():
+        nonlocal raised, stopped
         while True:
             if req.parser is None:
                 break
@@ -83,10 +83,17 @@ def drive_requestant(frags):
                     break
                 continue
             break
+
+    idle = tuple(idle) or (0,)
+    for i, frag in enumerate(frags):
+        msg.extend(frag)
+        for _ in range(1 + idle[i % len(idle)]):
+            if not stopped:
+                pump()
     return results, bytes(msg), raised
 
 
-def drive_respondent(frags, close=False, method="GET"):
+def drive_respondent(frags, close=False, method="GET", idle=(0,)):
     msg = bytearray()
     rsp = clienting.Respondent(msg=msg, method=method)
     results = []
@@ -114,10 +121,12 @@ def drive_respondent(frags, close=False, method="GET"):
                 continue
             return
 
-    for frag in frags:
+    idle = tuple(idle) or (0,)
+    for i, frag in enumerate(frags):
         msg.extend(frag)
-        if not stopped:
-            pump()
+        for _ in range(1 + idle[i % len(idle)]):
+            if not stopped:
+                pump()
     if close and not stopped:
         rsp.close()
         pump()
